@@ -581,6 +581,14 @@ def run_one(thunk, kind, layers, axioms, stack, S, S2, sm):
         for p, st in base._pattern_usage.items():
             u.append(toks(encx(p, sm) + [st.uses]))
         r['uses'] = ' ; '.join(u)
+    # client epilogue (implementation-only oracle, after the state above was recorded): what a client such as the Metamath translator does
+    # between two proof expressions -- save the proof just obtained, then build its conclusion again as a pattern
+    try:
+        it.save('client-saved', proved)
+        it.pattern(proved.conclusion)
+        r['epilogue'] = 'ok'
+    except Exception as e:  # noqa: BLE001
+        r['epilogue'] = type(e).__name__
     return r
 
 
